@@ -115,7 +115,7 @@ func c12GCCase(r gen.R) *c12Case {
 func init() {
 	fw.Register(&fw.Prop{
 		ID: "C12", Level: "exploration",
-		Rule: "sequences of 4-10 rules of one phase drawn from a small family of transformation lists with shared prefixes, over the same and different targets (ARGS family, headers, counts, TX, and chain links over MATCHED_VAR / MATCHED_VARS(_NAMES) whose content changes during the phase), run against requests with few names, many repeats and values differing only by case or white space, each pair repeated so that map iteration order varies; plus long phases (250-350 chained rules over MATCHED_VAR_NAME) executed under SetGCPercent(1), so that freed string addresses are reused within a phase. Oracle: the values presented to a recording operator, fired rules and match data equal the reference interpreter's (own transformation list applied to the current content of the target); on a difference the same rule set with a distinct identity transformation in front of every list (no cache entry can be shared) decides whether sharing is the cause. Non-trivial: the transformation cache reported at least one hit or prefix hit during the case (hook events); distinct by (rule-set text, request).",
+		Rule:        "sequences of 4-10 rules of one phase drawn from a small family of transformation lists with shared prefixes, over the same and different targets (ARGS family, headers, counts, TX, and chain links over MATCHED_VAR / MATCHED_VARS(_NAMES) whose content changes during the phase), run against requests with few names, many repeats and values differing only by case or white space, each pair repeated so that map iteration order varies; plus long phases (250-350 chained rules over MATCHED_VAR_NAME) executed under SetGCPercent(1), so that freed string addresses are reused within a phase. Oracle: the values presented to a recording operator, fired rules and match data equal the reference interpreter's (own transformation list applied to the current content of the target); on a difference the same rule set with a distinct identity transformation in front of every list (no cache entry can be shared) decides whether sharing is the cause. Non-trivial: the transformation cache reported at least one hit or prefix hit during the case (hook events); distinct by (rule-set text, request).",
 		Assumptions: []string{"reference interpreter as in C01", "TCacheHit/TCachePrefixHit/TCacheMiss hook events only feed the evidence; the verdict uses operator inputs and match data"},
 		Required:    []string{"gc_pressure_cases", "tcache_hits", "tcache_prefix_hits", "cases_with_hit", "changing_target:MATCHED_VAR", "changing_target:MATCHED_VARS"},
 		Plan: func(tier fw.Tier, seed int64) []fw.Batch {
